@@ -396,6 +396,10 @@ def rule_history(facts):
                 return dist
             if q[0] == "phi" and acc is not None:
                 return acc
+            if q[0] == "field" and isinstance(q[2], tuple) and q[2] and q[2][0] == "as" and "Some" in str(q[2][1]):
+                inner = q[2][2]
+                if isinstance(inner, tuple) and inner and inner[0] == "call" and str(inner[1]).endswith("checked_sub") and len(inner[2]) == 2:
+                    return pat.eval_term(inner[2][0], f) - pat.eval_term(inner[2][1], f)     # the Some payload of a.checked_sub(b)
             raise pat.NotEvaluable(q)
         return f
     r.sites += 3
@@ -404,6 +408,9 @@ def rule_history(facts):
         it, _ = idx_terms(lo_) if lo_ is not None else ([], None)
         if it and all(pat.eval_term(it[0][1], lf(n)) == n - 1 for n in (1, 2, 77)):
             r.ok("evaluation", {"last_or": "buf[len - 1]"})
+        elif lo_ is not None and not it and any((flow.callee(x.term) or "").endswith(("::last", "Vec::last")) and x.term.args and
+                                              pat.has_field(Terms(lo_).of_operand(x.term.args[0]), "buf") for x in lo_.calls()):
+            r.ok("evaluation", {"last_or": "buf.last()"})
         else:
             r.bad("accum|last_or", "the previous byte of the accumulating window is not buf[len - 1]", pat.where(lo_) if lo_ is not None else "")
         ln_ = accum("last_n")
